@@ -193,7 +193,7 @@ def step (st : St) (toks : List String) : St × String :=
         let net' := net.closure c
         let newLog := net'.log.drop net.log.length
         ({ st with net := net' },
-          s!"closed log={net'.log.length} new=" ++ (if newLog.isEmpty then "-" else ",".intercalate (newLog.map showMsg)) ++
+          s!"closed p={match closureCount c closureFuel net with | some k => toString k | none => "fuel"} log={net'.log.length} new=" ++ (if newLog.isEmpty then "-" else ",".intercalate (newLog.map showMsg)) ++
           String.join (net'.nodes.map fun nd => " ;; " ++ showNode c st.ids nd))
       | ["sync"] =>
         ({ st with net := { net with synced := true } }, s!"sync R={net.maxRound}")
